@@ -13,6 +13,10 @@ pub(crate) struct EvalContext {
 
 impl EvalContext {
     pub(crate) fn new() -> Self {
+        #[cfg(feature = "verif-hooks")]
+        if let Some(seed) = crate::verif_hooks::seed_override() {
+            return Self::with_seed(seed);
+        }
         let mut seed_bytes: [u8; 8] = Default::default();
         getrandom::getrandom(&mut seed_bytes).unwrap();
         let seed = u64::from_le_bytes(seed_bytes);
@@ -64,6 +68,8 @@ impl EvalContext {
     }
 
     pub(crate) fn reset_random_seed(&mut self) {
+        #[cfg(feature = "verif-hooks")]
+        crate::verif_hooks::log_reset();
         self.rng = RefCell::new(StdRng::seed_from_u64(self.seed));
     }
 
@@ -80,6 +86,20 @@ impl EvalContext {
 
     pub(crate) fn swap_vars(&mut self) {
         std::mem::swap(&mut self.vars, &mut self.alt_vars);
+    }
+}
+
+#[cfg(feature = "verif-hooks")]
+impl EvalContext {
+    /// Canonical rendering of everything the context remembers (the generator state is
+    /// not observable; the harness tracks it through the draw log)
+    pub(crate) fn verif_key(&self) -> String {
+        let mut outputs = self.outputs.iter().collect::<Vec<_>>();
+        outputs.sort_by(|a, b| a.0.cmp(b.0));
+        format!(
+            "vars={:?} alt={:?} outputs={:?} seed={}",
+            self.vars, self.alt_vars, outputs, self.seed
+        )
     }
 }
 
